@@ -36,7 +36,7 @@ PROPS = {
     "C02": dict(
         title="Launchpad-token solvency",
         lean=["LP.Props.C02", "LP.Props.C01reachV2", "LP.Props.C01reachV1", "LP.Props.C01reachG1", "LP.Props.C13reachV2", "LP.Props.C14reachG", "LP.Props.C14feeLp", "LP.Props.C02reach", "LP.Props.AllVariants2", "LP.Props.C16reach", "LP.Props.C01receipts", "LP.Props.C01owner", "LP.Props.C01zero", "LP.Props.C01zeroV1more", "LP.Props.C01zeroG1more"],
-        profiles=[("life", ALL_VARIANTS), ("reserve", GUAR)],
+        profiles=[("life", ALL_VARIANTS), ("reserve", GUAR), ("vest", ["guarV1", "guarV2"])],
         R={"st": [({"deposit"}, None), ({"claim", "claimPayment"}, FUNDS_MSGS)],
            "xf.lp": {"claim", "claimPayment"}, "lock": ANY},
         D={"bal.lp": ANY, "tdep": ANY, "dep": ANY, "per": {"deposit", "claim", "claimPayment"}, "views.C02": ANY},
